@@ -55,7 +55,10 @@ func constructEd25519SigningKey(data []byte, keyName string) (types.SigningPubli
 	if len(data) != 32 {
 		return nil, oops.Errorf("invalid %s public key length: expected 32, got %d", keyName, len(data))
 	}
-	key, err := ed25519.NewEd25519PublicKey(data)
+	// Copy: NewEd25519PublicKey wraps its argument and the key must not alias the caller's buffer.
+	keyBytes := make([]byte, len(data))
+	copy(keyBytes, data)
+	key, err := ed25519.NewEd25519PublicKey(keyBytes)
 	if err != nil {
 		return nil, oops.Wrapf(err, "failed to construct %s signing key", keyName)
 	}
